@@ -3,12 +3,31 @@
 use crate::{Prop, Tier};
 
 pub mod c01;
+pub mod c02;
+pub mod c03;
+pub mod c04;
+pub mod fwmon;
+pub mod c05;
+pub mod c07;
+pub mod c08;
+pub mod c09;
+pub mod c10;
+pub mod c05x;
 pub mod c20;
 
 pub fn make(name: &str, tier: Tier) -> Option<Box<dyn Prop>> {
     let _ = tier;
     Some(match name {
         "c01" => Box::new(c01::C01::default()),
+        "c02" => Box::new(c02::C02::default()),
+        "c03" => Box::new(c03::C03::default()),
+        "c04" => Box::new(c04::C04::default()),
+        "c05" => Box::new(c05::C05::default()),
+        "c07" => Box::new(c07::C07::default()),
+        "c08" => Box::new(c08::C08::default()),
+        "c09" => Box::new(c09::C09::default()),
+        "c10" => Box::new(c10::C10::default()),
+        "c05x" => Box::new(c05x::C05x::default()),
         _ => return None,
     })
 }
